@@ -3215,3 +3215,30 @@ pub(crate) fn verif_read_coefficients(
 pub(crate) fn verif_default_coeff_probs(plane: usize) -> Vec<u8> {
     COEFF_PROBS[plane].iter().flatten().flatten().copied().collect()
 }
+
+/// `read_quantization_indices` on a first partition that starts at the quantiser fields (`data`),
+/// with the segment header state set directly: the six factors of every segment.
+#[cfg(image_webp_verif)]
+pub(crate) fn verif_quant_factors(
+    data: &[u8],
+    segments_enabled: bool,
+    delta_values: bool,
+    levels: [i8; 4],
+) -> Result<[[i16; 6]; 4], DecodingError> {
+    let mut d = Vp8Decoder::new(std::io::empty());
+    let mut buf = vec![[0u8; 4]; data.len().div_ceil(4)];
+    buf.as_mut_slice().as_flattened_mut()[..data.len()].copy_from_slice(data);
+    d.b.init(buf, data.len())?;
+    d.segments_enabled = segments_enabled;
+    for i in 0..MAX_SEGMENTS {
+        d.segment[i].delta_values = delta_values;
+        d.segment[i].quantizer_level = levels[i];
+    }
+    d.read_quantization_indices()?;
+    let mut out = [[0i16; 6]; 4];
+    for i in 0..MAX_SEGMENTS {
+        let s = &d.segment[i];
+        out[i] = [s.ydc, s.yac, s.y2dc, s.y2ac, s.uvdc, s.uvac];
+    }
+    Ok(out)
+}
